@@ -454,6 +454,11 @@ class FunctionVC:
 
     def run_path(self, I, c):
         env = self.entry_params(I, c)
+        if c.ghost.get('k3_static_only'):
+            I.inputs = {}
+            for nm, ok, text, wit in c.ghost.get('static_checks', []):
+                I.oblige(nm, z3.BoolVal(bool(ok)), 'data', {'text': text, 'static_witness': wit})
+            return
         hook = c.ghost.get('entry')
         if hook:
             hook(I, env)
